@@ -50,6 +50,8 @@ func main() {
 	switch {
 	case l1Props[prop]:
 		os.Exit(runL1(prop, *tier, *solver, seed))
+	case len(kernelPlan(prop, *tier)) > 0:
+		os.Exit(runKernels(prop, *tier, *solver, seed))
 	default:
 		fmt.Printf("INCONCLUSIVE property=%s no check registered\n", prop)
 		os.Exit(2)
